@@ -1,23 +1,28 @@
 #!/bin/bash
 # usage: confirm_seed.sh <seed dir> <name>   (name = directory under /verif/seeded)
 # Confirms a seeded change in a scratch worktree of /repo's HEAD: the suite still passes with it,
-# the demonstration's output differs with / without it. Stores everything under /verif/seeded/<name>.
+# the demonstration (a .nl program and/or a Rust test file) behaves differently with / without it.
 S=$1; N=$2; W=/tmp/cw/$N
 mkdir -p /tmp/cw /verif/seeded/$N
 git -C /repo worktree add -q --detach $W HEAD || exit 2
 cd $W
 export CARGO_TARGET_DIR=$W/target
+run_demos() { # $1 = suffix
+  for d in $S/demo*.nl; do [ -f "$d" ] && ( ulimit -v 4000000; timeout 60 ./target/release/nederlang $d > /tmp/cw/$N.$(basename $d).$1 2>&1 ); done
+  if [ -f $S/demo_test.rs ]; then cp $S/demo_test.rs tests/zz_demo_test.rs; (timeout 600 cargo test --release --offline --test zz_demo_test 2>&1 | grep -E "^test |test result" | sed 's/finished in.*//' > /tmp/cw/$N.demo_test.$1); rm -f tests/zz_demo_test.rs; fi
+}
 cargo build --release --offline -q 2>/dev/null
-for d in $S/demo*.nl; do timeout 60 ./target/release/nederlang $d > /tmp/cw/$N.$(basename $d).without 2>&1; done
-if ! (git apply --3way $S/patch.diff 2>/dev/null || git apply $S/patch.diff); then echo "$N: PATCH DOES NOT APPLY"; cd /; git -C /repo worktree remove --force $W; exit 1; fi
+run_demos without
+if ! (git apply $S/patch.diff 2>/dev/null || git apply --3way $S/patch.diff 2>/dev/null); then echo "$N: PATCH DOES NOT APPLY"; cd /; git -C /repo worktree remove --force $W; exit 1; fi
 git reset -q
+git diff > /verif/seeded/$N/patch.diff
 T=$(cargo test --offline 2>&1 | grep "test result" | awk '{p+=$4; f+=$6} END {print p" passed "f" failed"}')
 cargo build --release --offline -q 2>/dev/null
+run_demos with
 DIFF=0
-for d in $S/demo*.nl; do ( ulimit -v 4000000; timeout 60 ./target/release/nederlang $d > /tmp/cw/$N.$(basename $d).with 2>&1 ); cmp -s /tmp/cw/$N.$(basename $d).with /tmp/cw/$N.$(basename $d).without || DIFF=1; done
-git diff > /verif/seeded/$N/patch.diff
+for f in /tmp/cw/$N.*.with; do b=${f%.with}; cmp -s $f $b.without || DIFF=1; done
 cp $S/demo* $S/expected* $S/notes.md /verif/seeded/$N/ 2>/dev/null
-for d in $S/demo*.nl; do b=$(basename $d); head -c 2000 /tmp/cw/$N.$b.without > /verif/seeded/$N/$b.output_without; head -c 2000 /tmp/cw/$N.$b.with > /verif/seeded/$N/$b.output_with; done
-echo "$N: tests with change: $T ; demo output differs: $DIFF"
+for f in /tmp/cw/$N.*.with /tmp/cw/$N.*.without; do [ -f "$f" ] && head -c 3000 $f > /verif/seeded/$N/$(basename $f | sed "s/^$N\.//").txt; done
+echo "$N: tests with change: $T ; demonstration differs: $DIFF"
 echo "{\"tests_with_change\":\"$T\",\"demo_differs\":$DIFF,\"base_commit\":\"$(git -C /repo log --format=%h -1)\"}" > /verif/seeded/$N/confirm.json
 cd /; git -C /repo worktree remove --force $W; rm -f /tmp/cw/$N.*
